@@ -68,8 +68,7 @@ class dynstr_get_string:
 class get_table_offset:
     """(pointer of the first entry bearing the tag, its file offset through the loadable segments)"""
     params = dict(self=DynamicT(), tag_name=Str)
-    requires = DYN_INV + ["self._num_tags == -1 or self._empty"] + ELFFILE_INV_EF + \
-        ["self.elffile.header.e_shoff <= self.elffile.stream_len"]
+    requires = DYN_INV + ["self._num_tags == -1 or self._empty"] + ELFFILE_INV_EF
     returns = Any
     requires_wf = []
     ghost = {"$f": "dynfirst(self, tag_name)"}
@@ -82,7 +81,7 @@ class get_table_offset:
                " result[0] >= phdr(self.elffile, j).p_vaddr and"
                " result[0] + 1 <= phdr(self.elffile, j).p_vaddr + phdr(self.elffile, j).p_filesz,"
                " 0, max(0, nseg(self.elffile))))"]
-    may_raise = ["ELFError", "OverflowError", "TypeError"]      # TypeError: from the segment enumeration (PN_XNUM, section 0 with a link beyond the file)
+    may_raise = ["ELFError", "OverflowError", "TypeError", "AttributeError"]      # TypeError: from the segment enumeration (PN_XNUM, section 0 with a link beyond the file)
 
 
 TagRet = Obj('DynamicTag', entry=DynRec)
